@@ -24,7 +24,7 @@ def parseTurns (s : String) : Option (List Turn) := if s = "-" then some [] else
 
 def parseWire (s : String) : Option Wire :=
   if s = "i64" then some .i64 else if s = "i32" then some .i32 else if s = "f64" then some .f64
-  else if s = "str" then some .str else none
+  else if s = "str" then some .str else if s = "two" then some .two else none
 
 def parseMethod (s : String) : Option UMethod :=
   if s = "echo" then some .echo else if s = "fail" then some .fail else if s = "boom" then some .boom
@@ -53,6 +53,10 @@ def step (_ : Unit) (ws : List String) : Unit × String :=
       else if k = "xch" then ((), report (.stream .xch w { r := 0, e := e, c := c } ts))
       else ((), "bad-op")
     | _, _, _, _, _, _ => ((), "bad-op")
+  | ["castin", w, bad, e, c] =>
+    match parseWire w, bad.toNat?, kv "e=" e, kv "c=" c with
+    | some w, some b, some e, some c => ((), report (.castInput w (b != 0) { r := 0, e := e, c := c }))
+    | _, _, _, _ => ((), "bad-op")
   | _ => ((), "bad-op")
 
 def drive : IO Unit := driveLoop () step
